@@ -421,6 +421,7 @@ func (s *indexKVStore) GetValueFromMem(bucketID uint32, key []byte) (uint32, boo
 // FindValuesByRegexp returns values by regexp expr.
 func (s *indexKVStore) FindValuesByRegexp(bucketID uint32, rp *regexp.Regexp, ids []uint32) ([]uint32, error) {
 	snapshot := s.getSnapshot()
+	verifhook.Yield("index.kvstore.regexp.afterSnapshot")
 
 	reader := v1.NewIndexKVReader(snapshot)
 	bucket, err := reader.GetBucket(bucketID)
@@ -490,6 +491,7 @@ func (s *indexKVStore) findValuesByLike(bucketID uint32,
 	check func(a, b []byte) bool, ids []uint32,
 ) ([]uint32, error) {
 	snapshot := s.getSnapshot()
+	verifhook.Yield("index.kvstore.like.afterSnapshot")
 	reader := v1.NewIndexKVReader(snapshot)
 	bucket, err := reader.GetBucket(bucketID)
 	if err != nil {
